@@ -71,14 +71,33 @@ def base_field(kind):
 # observation: the tree of a construct, its fingerprints
 # ---------------------------------------------------------------------------
 class Names:
+    """Interns absolute (lexically normalised) file names as small integers
+    and path components as positive integers; the model receives, for every
+    name, its list of components (Fs.spell)."""
+
     def __init__(self):
         self.ids = {}
+        self.comps = {}
+
+    def comp(self, c):
+        return self.comps.setdefault(c, len(self.comps) + 1)
+
+    def path(self, p):
+        """component ids of an absolute path that is already normalised"""
+        return [self.comp(c) for c in p.split("/") if c]
 
     def add(self, path, i):
         self.ids[os.path.abspath(path)] = i
 
     def get(self, path):
-        return self.ids.get(path, "?" + str(path))
+        if not isinstance(path, str) or not path.startswith("/"):
+            return "?" + str(path)
+        if path not in self.ids:
+            self.ids[path] = max([i for i in self.ids.values() if isinstance(i, int)] + [20]) + 1
+        return self.ids[path]
+
+    def spell(self):
+        return sorted([i, self.path(p)] for p, i in self.ids.items())
 
 
 def own_orig(x, names):
@@ -240,6 +259,38 @@ def meta_var(v):
     return out
 
 
+def detail_of(c):
+    """Components of a construct without data: coordinate reference
+    (conversion / datum parameters, domain ancillaries, coordinates, netCDF
+    names), cell method (axes, method, qualifiers)."""
+    out = {}
+    for part in ("coordinate_conversion", "datum"):
+        p = getattr(c, part, None)
+        if p is None:
+            continue
+        ent = {}
+        try:
+            ent["parameters"] = {k: (meta_data(v) if isinstance(v, cfdm.Data) else jv(v))
+                                 for k, v in sorted(p.parameters().items())}
+        except Exception as e:  # noqa
+            ent["parameters"] = "ERR" + type(e).__name__
+        if hasattr(p, "domain_ancillaries"):
+            ent["domain_ancillaries"] = {k: jv(v) for k, v in sorted(p.domain_ancillaries().items())}
+        ent["nc"] = nc_of(p)
+        out[part] = ent
+    for nm in ("coordinates", "get_axes", "get_method", "qualifiers"):
+        m = getattr(c, nm, None)
+        if m is not None:
+            try:
+                v = m() if nm != "get_axes" and nm != "get_method" else m(None)
+                out[nm] = sorted(map(str, v)) if isinstance(v, (set, frozenset)) else (
+                    {k: jv(x) if not isinstance(x, cfdm.Data) else repr(x.array.tolist()) for k, x in sorted(v.items())}
+                    if isinstance(v, dict) else jv(v))
+            except Exception:
+                pass
+    return out
+
+
 def meta_of(f, names):
     """Everything about a construct except the values of its arrays."""
     out = meta_var(f)
@@ -260,6 +311,7 @@ def meta_of(f, names):
             except Exception:
                 ent["text"] = repr(c)
             ent["nc"] = nc_of(c)
+            ent["detail"] = detail_of(c)
         others[k] = ent
     out["constructs"] = others
     return out
@@ -388,6 +440,48 @@ def new_axes(f, shape):
 
 def is_field(x):
     return isinstance(x, cfdm.Field)
+
+
+COMPONENT_KINDS = ["interior_ring", "node_count", "part_node_count", "bounds", "count", "index", "list",
+                   "cell_measure", "domain_ancillary", "coordref"]
+
+
+def components_of(f, kind, create=False):
+    """The component objects of one kind held (not copied) by construct f."""
+    out = []
+    cons = data_constructs(f)
+    if kind in ("interior_ring", "node_count", "part_node_count", "bounds"):
+        for _k, c in cons.items():
+            m = getattr(c, "get_" + kind, None)
+            if m is None:
+                continue
+            x = m(None)
+            if x is None and create and kind in ("node_count", "part_node_count") and \
+                    getattr(c, "get_geometry", lambda d: None)(None) is not None:
+                cls = cfdm.NodeCountProperties if kind == "node_count" else cfdm.PartNodeCountProperties
+                getattr(c, "set_" + kind)(cls(), copy=False)
+                x = m(None)
+            if x is not None:
+                out.append(x)
+    elif kind in ("count", "index", "list"):
+        ds = [f.get_data(None)] if hasattr(f, "get_data") else []
+        ds += [c.get_data(None) for c in cons.values()]
+        for d in ds:
+            if d is None:
+                continue
+            try:
+                x = getattr(d, "get_" + kind)(None)
+            except Exception:  # noqa
+                x = None
+            if x is not None:
+                out.append(x)
+    elif kind == "cell_measure":
+        out = [c for _k, c in sorted(f.cell_measures(todict=True).items())]
+    elif kind == "domain_ancillary":
+        out = [c for _k, c in sorted(f.domain_ancillaries(todict=True).items())]
+    elif kind == "coordref":
+        out = [c.coordinate_conversion for _k, c in sorted(f.coordinate_references(todict=True).items())]
+    return out
 
 
 def apply_op(regs, o):
@@ -541,6 +635,48 @@ def apply_op(regs, o):
         d = wrap_data(d, o.get("how", "direct"))
         parent.get_bounds().set_data(d)
         return ["set_bounds_data", dst, k, src, msel], dst
+    if kind == "comp_prop":
+        # give ONE component a property / netCDF name that its siblings do not
+        # have: the writer's harmonising steps then have something to do
+        i = o["i"] % len(regs)
+        f = regs[i]
+        comps = components_of(f, o.get("kind", "interior_ring"), create=o.get("create", False))
+        if not comps:
+            raise Skip("no such component")
+        x = comps[o.get("j", 0) % len(comps)]
+        val = f"asym{o.get('val', 0)}"
+        if o.get("which") == "ncvar" and hasattr(x, "nc_set_variable"):
+            x.nc_set_variable("nc_" + val)
+        elif hasattr(x, "set_property"):
+            x.set_property(o.get("name", "long_name"), val)
+        elif hasattr(x, "set_parameter"):
+            x.set_parameter("asym_parameter", float(o.get("val", 0)))
+        else:
+            raise Skip("immutable component")
+        return ["touch", i], i
+    if kind == "make_external":
+        i = o["i"] % len(regs)
+        f = regs[i]
+        if not is_field(f):
+            raise Skip("domain")
+        cms = f.cell_measures(todict=True)
+        if o.get("new") or not cms:
+            if not f.has_data() or f.ndim < 1:
+                raise Skip("no data axes")
+            ax = list(f.get_data_axes())[-1:]
+            n = f.domain_axes(todict=True)[ax[0]].get_size()
+            cm = cfdm.CellMeasure(measure="area", properties={"units": "m2"},
+                                  data=cfdm.Data(np.arange(float(n)) + 1.0))
+            cm.nc_set_external(True)
+            cm.nc_set_variable(f"ext_area{o.get('val', 0)}")
+            k = f.set_construct(cm, axes=ax)
+            return ["new_cons", i, k], i
+        k = sorted(cms)[o.get("j", 0) % len(cms)]
+        cm = cms[k]
+        cm.nc_set_external(True)
+        if cm.nc_get_variable(None) is None or o.get("rename"):
+            cm.nc_set_variable(f"ext_area{o.get('val', 0)}")
+        return ["touch", i], i
     if kind == "touch":
         i = o["i"] % len(regs)
         f = regs[i]
@@ -671,9 +807,9 @@ def raw_vars(path):
     return out
 
 
-def do_write(constructs, target, w, extra):
+def do_write(constructs, target, w, extra, external=None):
     try:
-        return do_write1(constructs, target, w, extra)
+        return do_write1(constructs, target, w, extra, external)
     finally:
         # a write that raised leaves its netCDF4.Dataset to the garbage
         # collector; collect now so that the file is closed before it is
@@ -681,8 +817,10 @@ def do_write(constructs, target, w, extra):
         gc.collect()
 
 
-def do_write1(constructs, target, w, extra):
+def do_write1(constructs, target, w, extra, external=None):
     kw = dict(extra)
+    if external is not None:
+        kw["external"] = external
     if w["mode"] != "w":
         kw["mode"] = w["mode"]
     if not w.get("overwrite", True):
@@ -696,37 +834,112 @@ def do_write1(constructs, target, w, extra):
         return [errclass(e), type(e).__name__, str(e)[:160]]
 
 
+KEYFILE = {"X": "data/x.nc", "Y": "data/y.nc", "Z": "data/z.nc", "E": "data/e.nc", "EN": "data/en.nc",
+           "DV": "data/v.nc", "V": "v.nc", "LX": "lx.nc", "W": "x.nc"}
+KEY_ID = {"X": 1, "Y": 2, "LX": 3, "Z": 4, "E": 5, "EN": 6, "V": 7, "DV": 8, "W": 9}
+
+
+def spell_of(base, slink, key, via):
+    """One way of writing the name of file `key` of the layout rooted at base."""
+    rel = KEYFILE[key]
+    fn = os.path.basename(rel)
+    if via == "filelink" and key == "X":
+        return os.path.join(base, "lx.nc")
+    if key in ("LX", "V", "W") or via in ("direct", "filelink"):
+        return os.path.join(base, rel)
+    if via == "relative":  # the working directory is the real case directory
+        cwd = os.getcwd()
+        return os.path.join("..", os.path.basename(cwd), ".", os.path.relpath(os.path.join(base, rel), cwd))
+    if via == "alias":  # through a symbolic link to the parent directory
+        return os.path.join(base, "alias", fn)
+    if via == "dotdot":
+        return os.path.join(base, "data", "sub", "..", fn)
+    if via == "dslash":
+        return base + "//data///" + fn
+    if via == "scratch":  # the whole scratch directory reached through a symbolic link
+        return os.path.join(slink, "data", fn)
+    if via == "alias_scratch":
+        return os.path.join(slink, "alias", fn)
+    if via == "deep":  # '..' after a link to a deeper directory: lexically base/fn, physically base/data/fn
+        return os.path.join(base, "alias2", "..", fn)
+    raise ValueError(via)
+
+
+def make_layout(base, slink):
+    os.makedirs(os.path.join(base, "data", "sub"))
+    os.symlink("data", os.path.join(base, "alias"))               # relative target
+    os.symlink(os.path.join(base, "data", "sub"), os.path.join(base, "alias2"))
+    os.symlink(base, slink)
+
+
+def lstate(path):
+    """What is at a directory entry, without following a final link."""
+    try:
+        st = os.lstat(path)
+    except OSError:
+        return None
+    import stat as _stat
+    if _stat.S_ISLNK(st.st_mode):
+        return ["link", os.readlink(path)]
+    if _stat.S_ISDIR(st.st_mode):
+        return ["dir"]
+    with open(path, "rb") as fh:
+        sha = hashlib.sha256(fh.read()).hexdigest()[:16]
+    return [st.st_size, st.st_mtime_ns, sha]
+
+
+def geo_props(f, intern):
+    """Per auxiliary coordinate (sorted by key): the properties of its node
+    count, part node count and interior ring variables (None when absent)."""
+    out = []
+    if not is_field(f) and not isinstance(f, cfdm.Domain):
+        return out
+    for _k, c in sorted(f.auxiliary_coordinates(todict=True).items()):
+        row = []
+        for nm in ("get_node_count", "get_part_node_count", "get_interior_ring"):
+            x = getattr(c, nm)(None) if hasattr(c, nm) else None
+            row.append(None if x is None else
+                       sorted([intern("p:" + str(k)), intern("v:" + repr(jv(v)))] for k, v in x.properties().items()))
+        out.append(row)
+    return out
+
+
 def run_case(case, root):
+    root = os.path.realpath(root)
     d = os.path.join(root, f"c{case['id']}")
     os.makedirs(d)
     cwd = os.getcwd()
     os.chdir(d)
     out = {"id": case["id"]}
+    slink, tslink = os.path.join(root, f"s{case['id']}"), os.path.join(root, f"t{case['id']}")
     try:
-        names, tnames = Names(), Names()
-        paths = {"X": os.path.join(d, "x.nc"), "Y": os.path.join(d, "y.nc"),
-                 "LX": os.path.join(d, "lx.nc"), "Z": os.path.join(d, "z.nc")}
-        twin = {"X": os.path.join(d, "tx.nc"), "Y": os.path.join(d, "ty.nc"), "LX": os.path.join(d, "tlx.nc")}
-        for i, nm in enumerate(("X", "Y", "LX", "Z"), 1):
-            names.add(paths[nm], i)
-        for i, nm in enumerate(("X", "Y", "LX"), 1):
-            tnames.add(twin[nm], i)
+        names = Names()
+        tbase = os.path.join(d, "twin")
+        make_layout(d, slink)
+        make_layout(tbase, tslink)
+        paths = {k: os.path.join(d, rel) for k, rel in KEYFILE.items()}
+        twin = {k: os.path.join(tbase, rel) for k, rel in KEYFILE.items()}
+        for k, i in KEY_ID.items():
+            names.add(paths[k], i)
         for nm, kind in zip(("X", "Y"), case["bases"]):
             cfdm.write(base_field(kind), paths[nm])
             shutil.copyfile(paths[nm], twin[nm])
+        cfdm.write(cfdm.example_field(0), paths["E"])       # an existing file that may be named as `external`
+        shutil.copyfile(paths["E"], paths["V"])             # an existing file one level up
         os.symlink(paths["X"], paths["LX"])
         os.symlink(twin["X"], twin["LX"])
         for p in list(paths.values()) + list(twin.values()):
             if os.path.exists(p) and not os.path.islink(p):
                 os.utime(p, (OLD, OLD))
 
-        def read_env(pp):
-            via = case.get("read_via", "direct")
-            px = pp["LX"] if via == "symlink" else (os.path.relpath(pp["X"]) if via == "relative" else pp["X"])
-            return [cfdm.read(px)[0], cfdm.read(pp["Y"])[0]]
+        via_x = {"symlink": "filelink"}.get(case.get("read_via", "direct"), case.get("read_via", "direct"))
+        via_y = case.get("read_via_y", "direct")
 
-        regs, tregs = read_env(paths), read_env(twin)
-        out["read_via"] = case.get("read_via", "direct")
+        def read_env(base, sl):
+            return [cfdm.read(spell_of(base, sl, "X", via_x))[0], cfdm.read(spell_of(base, sl, "Y", via_y))[0]]
+
+        regs, tregs = read_env(d, slink), read_env(tbase, tslink)
+        out["read_via"] = via_x + "/" + via_y
         out["init"] = [{"tree": tree_of(f, names), "aggs": aggs(f, names)} for f in regs]
         steps = []
         for o in case["ops"]:
@@ -758,29 +971,63 @@ def run_case(case, root):
         sel = [i % len(regs) for i in w["regs"]]
         constructs = [regs[i] for i in sel]
         arg = constructs if (w.get("as_list") or len(constructs) > 1) else constructs[0]
-        target_key = w["target"]
-        target = {"X": paths["X"], "Y": paths["Y"], "LX": paths["LX"], "Z": paths["Z"],
-                  "Xrel": os.path.join("..", os.path.basename(d), ".", "x.nc")}[target_key]
+        tkey, tvia = w["target"], w.get("tvia", "direct")
+        if tkey == "Xrel":
+            tkey, tvia = "X", "relative"
+        if tkey == "LX":
+            tkey, tvia = "X", "filelink"
+        target = spell_of(d, slink, tkey, tvia)
+        ext = w.get("external")
+        ext_path = spell_of(d, slink, ext["key"], ext.get("via", "direct")) if ext else None
+
+        def describe(p):
+            ab = os.path.abspath(p)
+            return {"name": names.get(ab), "path": names.path(ab), "raw": p,
+                    "modelable": os.path.realpath(p) == os.path.realpath(ab)}
+
+        out["target"] = describe(target)
+        out["ext"] = describe(ext_path) if ext else None
         extra = dict(HARMLESS_KW[w.get("harmless", 0) % len(HARMLESS_KW)])
         injected = None
         if w.get("fault"):
             injected, kw = FAULT_KW[w["fault"]]
             extra.update(kw)
+        # the external fields the writer will derive (cell measures flagged
+        # external that have data and a netCDF variable name)
+        efsel = []
+        for i in sel:
+            f = regs[i]
+            if not is_field(f):
+                continue
+            for k, cm in sorted(f.cell_measures(todict=True).items()):
+                if cm.nc_get_external() and cm.has_data() and cm.nc_get_variable(None) is not None:
+                    try:
+                        efsel.append([i, k, list(data_constructs(f.convert(k)))])
+                    except Exception:  # noqa
+                        pass
+        interned = {}
+
+        def intern(s):
+            return interned.setdefault(s, len(interned) + 1)
+
+        geo_before = [geo_props(regs[i], intern) for i in sel]
         meta_before = [meta_of(f, names) for f in regs]
         # control: the same constructs and options written to a fresh place,
         # to learn whether this write fails on its own account
         ctl_target = os.path.join(d, "control.nc")
+        ctl_ext = os.path.join(d, "control_e.nc")
         wctl = dict(w, overwrite=True)
         if w["mode"] in ("a", "r+"):
-            tk = "X" if target_key in ("X", "LX", "Xrel") else target_key
-            if tk in twin and os.path.exists(twin[tk]):
-                shutil.copyfile(twin[tk], ctl_target)
+            tk = tkey if tkey in ("X", "Y", "E", "V") else None
+            src = twin.get(tk) if tk in ("X", "Y") else paths.get(tk)
+            if src and os.path.exists(src):
+                shutil.copyfile(src, ctl_target)
         ctl_before = stat_of(ctl_target)
         try:
             ctl_arg = [c.copy() for c in constructs] if isinstance(arg, list) else constructs[0].copy()
         except Exception:  # noqa  (an inconsistent construct can not be copied: the writer will meet the same)
             ctl_arg = arg
-        ctl_err = do_write(ctl_arg, ctl_target, wctl, extra)
+        ctl_err = do_write(ctl_arg, ctl_target, wctl, extra, ctl_ext if ext else None)
         ctl_after = stat_of(ctl_target)
         if ctl_err is None:
             fault = ["none"]
@@ -790,25 +1037,40 @@ def run_case(case, root):
             fault = ["late"]
         out["fault"] = fault
         out["control_error"] = ctl_err
-        try:
-            os.remove(ctl_target)
-        except OSError:
-            pass
+        out["ext_written_by_control"] = os.path.exists(ctl_ext)
+        out["efsel"] = efsel if out["ext_written_by_control"] else []
+        out["efsel_predicted"] = len(efsel)
+        for p in (ctl_target, ctl_ext):
+            try:
+                os.remove(p)
+            except OSError:
+                pass
 
-        tracked = {nm: paths[nm] for nm in ("X", "Y", "LX", "Z")}
-        before = {nm: stat_of(p) for nm, p in tracked.items()}
-        raw_before = {nm: raw_vars(paths[nm]) for nm in ("X", "Y")} if w["mode"] in ("a", "r+") else None
-        links_before = {nm: os.path.islink(p) for nm, p in tracked.items()}
-        err = do_write(arg, target, w, extra)
-        after = {nm: stat_of(p) for nm, p in tracked.items()}
+        tracked = {k: paths[k] for k in ("X", "Y", "Z", "E", "EN", "V", "DV", "W", "LX")}
+        before = {nm: lstate(p) for nm, p in tracked.items()}
+        # the file system as the model sees it: regular files and links by
+        # canonical path (link targets given as canonical paths)
+        nodes = []
+        for k in ("X", "Y", "E", "V"):
+            nodes.append([names.path(paths[k]), ["file", 100 + KEY_ID[k]]])
+        nodes.append([names.path(paths["LX"]), ["link", names.path(paths["X"])]])
+        nodes.append([names.path(os.path.join(d, "alias")), ["link", names.path(os.path.join(d, "data"))]])
+        nodes.append([names.path(os.path.join(d, "alias2")), ["link", names.path(os.path.join(d, "data", "sub"))]])
+        nodes.append([names.path(slink), ["link", names.path(d)]])
+        raw_before = {nm: raw_vars(paths[nm]) for nm in ("X", "Y", "E", "V")} if w["mode"] in ("a", "r+") else None
+        err = do_write(arg, target, w, extra, ext_path)
+        after = {nm: lstate(p) for nm, p in tracked.items()}
         out["error"] = err
         out["before"], out["after"] = before, after
-        out["links_after"] = {nm: os.path.islink(p) for nm, p in tracked.items()}
-        out["links_before"] = links_before
+        out["tracked_paths"] = {nm: names.path(p) for nm, p in tracked.items()}
         out["sel"] = sel
         out["needed"] = [needed_names(meta_before[i]["tree"]) for i in sel]
+        out["all_needed"] = sorted({n for m in meta_before for n in needed_names(m["tree"])}, key=str)
         out["written_aggs"] = [meta_before[i]["aggs"] for i in sel]
+        out["nodes"] = nodes
         meta_after = [meta_of(f, names) for f in regs]
+        geo_after = [geo_props(regs[i], intern) for i in sel]
+        out["geo"] = {"before": geo_before, "after": geo_after}
         changed = []
         for i, (a, b) in enumerate(zip(meta_before, meta_after)):
             if a != b:
@@ -820,9 +1082,16 @@ def run_case(case, root):
                                 "before": json.dumps(a, sort_keys=True, default=str)[:300],
                                 "after": json.dumps(b, sort_keys=True, default=str)[:300]})
         out["inputs_changed"] = changed
+        # which real file each interned name resolves to (independent of the model: os.path.realpath)
+        real_of = {}
+        key_of_real = {os.path.realpath(p): k for k, p in paths.items() if k != "LX"}
+        for p, i in names.ids.items():
+            real_of[str(i)] = key_of_real.get(os.path.realpath(p), "?")
+        out["real_of"] = real_of
+        out["spell"] = names.spell()
         if raw_before is not None:
             lost = {}
-            for nm in ("X", "Y"):
+            for nm in ("X", "Y", "E", "V"):
                 ra = raw_vars(paths[nm])
                 bad = [k for k, v in raw_before[nm].items() if ra.get(k) != v]
                 if bad:
@@ -835,7 +1104,8 @@ def run_case(case, root):
                 f, t = regs[i], tregs[i]
                 vf, vt = values_of(f), values_of(t)
                 if vf != vt:
-                    bad.append({"reg": i, "diff": sorted(k for k in set(vf) | set(vt) if vf.get(k) != vt.get(k)),
+                    bad.append({"reg": i, "written": i in sel,
+                                "diff": sorted(k for k in set(vf) | set(vt) if vf.get(k) != vt.get(k)),
                                 "got": {k: vf.get(k) for k in list(vf)[:6]}})
             out["values_bad"] = bad
     except BaseException as e:  # noqa
@@ -844,6 +1114,11 @@ def run_case(case, root):
         out["driver_error"] = type(e).__name__ + ": " + str(e)[:300] + " | " + traceback.format_exc()[-600:]
     finally:
         os.chdir(cwd)
+        for p in (slink, tslink):
+            try:
+                os.remove(p)
+            except OSError:
+                pass
         shutil.rmtree(d, ignore_errors=True)
     return out
 
